@@ -17,6 +17,7 @@ import (
 	"os"
 	"path/filepath"
 	"runtime"
+	"sort"
 	"strconv"
 	"strings"
 )
@@ -41,7 +42,9 @@ func main() {
 		"math/rand":    {"rand", "verif/sim/simrand"},
 		"math/rand/v2": {"rand", "verif/sim/simrand"},
 	}
-	for _, pkg := range []string{"silence", "nflog"} {
+	printed := map[string]string{} // source path -> instrumented text
+	var sites []string
+	for _, pkg := range []string{"silence", "nflog", "dispatch", "store", "inhibit", "provider/mem", "api/v2"} {
 		ents, err := os.ReadDir(filepath.Join(*repo, pkg))
 		must(err)
 		for _, e := range ents {
@@ -54,18 +57,24 @@ func main() {
 			f, err := parser.ParseFile(fset, src, nil, parser.ParseComments)
 			must(err)
 			changed := false
-			for _, im := range f.Imports {
-				p, _ := strconv.Unquote(im.Path.Value)
-				a, ok := alias[p]
-				if !ok {
-					continue
+			if pkg == "silence" || pkg == "nflog" {
+				for _, im := range f.Imports {
+					p, _ := strconv.Unquote(im.Path.Value)
+					a, ok := alias[p]
+					if !ok {
+						continue
+					}
+					name := a[0]
+					if im.Name != nil {
+						name = im.Name.Name
+					}
+					im.Name = ast.NewIdent(name)
+					im.Path.Value = strconv.Quote(a[1])
+					changed = true
 				}
-				name := a[0]
-				if im.Name != nil {
-					name = im.Name.Name
-				}
-				im.Name = ast.NewIdent(name)
-				im.Path.Value = strconv.Quote(a[1])
+			}
+			if names := instrumentLocks(f, filepath.Base(pkg)); len(names) > 0 {
+				sites = append(sites, names...)
 				changed = true
 			}
 			if !changed {
@@ -73,60 +82,174 @@ func main() {
 			}
 			var buf bytes.Buffer
 			must(format.Node(&buf, fset, f))
-			dst := filepath.Join(*out, pkg+"_"+n)
-			must(os.WriteFile(dst, buf.Bytes(), 0o644))
-			repl[src] = dst
+			printed[src] = buf.String()
 		}
 	}
 	// store.Alerts.List returns the alerts in Go map order, which the dispatcher
 	// uses when it (re)starts; give it a seeded, reproducible order instead (any
-	// order is a legal one). Done textually on the current file; if the function
-	// no longer looks as expected the file is left alone.
-	if src, err := os.ReadFile(filepath.Join(*repo, "store/store.go")); err == nil {
-		text := string(src)
+	// order is a legal one). Done textually; if the function no longer looks as
+	// expected it is left alone.
+	storeSrc := filepath.Join(*repo, "store/store.go")
+	if text, ok := printed[storeSrc]; ok || true {
+		if !ok {
+			if b, err := os.ReadFile(storeSrc); err == nil {
+				text = string(b)
+			}
+		}
 		sig := "func (a *Alerts) List() []*types.Alert {"
-		if i := strings.Index(text, sig); i >= 0 {
+		if i := strings.Index(text, sig); i >= 0 && !strings.Contains(text, "\t\"sort\"\n") {
 			rest := text[i:]
 			if j := strings.Index(rest, "\n\treturn alerts\n}"); j >= 0 && !strings.Contains(rest[:j], "\nfunc ") {
 				patched := text[:i] + rest[:j] + "\n\tsort.Slice(alerts, func(i, j int) bool {\n\t\treturn simrand.Key(uint64(alerts[i].Fingerprint())) < simrand.Key(uint64(alerts[j].Fingerprint()))\n\t})" + rest[j:]
 				patched = strings.Replace(patched, "import (\n", "import (\n\t\"sort\"\n\tsimrand \"verif/sim/simrand\"\n", 1)
-				// a yield before every acquisition of the store lock: the simulator can
-				// preempt an ingestion worker between two store operations (it only does so
-				// for goroutines it has tagged as lock-free ingestion workers)
-				if !strings.Contains(patched, "pkg/verifhook") {
-					n := 0
-					for _, lock := range []string{"\n\ta.Lock()\n", "\n\ta.RLock()\n"} {
-						n += strings.Count(patched, lock)
-						patched = strings.ReplaceAll(patched, lock, "\n\tverifhook.Yield(\"auto.store\")"+lock)
-					}
-					if n > 0 {
-						patched = strings.Replace(patched, "import (\n", "import (\n\t\"github.com/prometheus/alertmanager/pkg/verifhook\"\n", 1)
-					}
-				}
-				if fset := token.NewFileSet(); true {
-					if f, err := parser.ParseFile(fset, "store.go", patched, parser.ParseComments); err == nil {
-						// drop a duplicate "sort" import if the file already had one
-						seen := map[string]bool{}
-						ok := true
-						for _, im := range f.Imports {
-							if seen[im.Path.Value] {
-								ok = false
-							}
-							seen[im.Path.Value] = true
-						}
-						if ok {
-							dst := filepath.Join(*out, "store_store.go")
-							must(os.WriteFile(dst, []byte(patched), 0o644))
-							repl[filepath.Join(*repo, "store/store.go")] = dst
-						}
-					}
+				if _, err := parser.ParseFile(token.NewFileSet(), "store.go", patched, 0); err == nil {
+					printed[storeSrc] = patched
 				}
 			}
 		}
 	}
+	for src, text := range printed {
+		rel, _ := filepath.Rel(*repo, src)
+		dst := filepath.Join(*out, strings.ReplaceAll(rel, "/", "_"))
+		must(os.WriteFile(dst, []byte(text), 0o644))
+		repl[src] = dst
+	}
+	sort.Strings(sites)
+	sb, _ := json.MarshalIndent(sites, "", " ")
+	must(os.WriteFile(filepath.Join(*out, "autosites.json"), sb, 0o644))
 	runtimeOverlay(*out, repl)
 	b, _ := json.MarshalIndent(map[string]any{"Replace": repl}, "", " ")
 	must(os.WriteFile(filepath.Join(*out, "overlay.json"), b, 0o644))
+}
+
+// instrumentLocks inserts, in every function of the file,
+//
+//	verifhook.Yield("auto.lock", "<pkg>.<Type>.<func>")   before  x.Lock() / x.RLock()
+//	verifhook.Yield("auto.locked")                         after   x.Lock() / x.RLock()
+//	verifhook.Yield("auto.unlocked")                       after   x.Unlock() / x.RUnlock() (also deferred ones)
+//
+// so that the simulator can suspend a goroutine right before it enters a
+// critical section (a hold rule names the function and the how-manieth such
+// acquisition of the run), and knows, per goroutine, how many instrumented locks
+// it holds: it only ever suspends a goroutine that holds none, because a
+// goroutine blocked on a sync.Mutex is not durably blocked and virtual time
+// would stand still. Returns the names of the functions that acquire a lock.
+func instrumentLocks(f *ast.File, pkg string) []string {
+	var names []string
+	yield := func(args ...string) ast.Stmt {
+		var as []ast.Expr
+		for _, a := range args {
+			as = append(as, &ast.BasicLit{Kind: token.STRING, Value: strconv.Quote(a)})
+		}
+		return &ast.ExprStmt{X: &ast.CallExpr{Fun: &ast.SelectorExpr{X: ast.NewIdent("verifhook"), Sel: ast.NewIdent("Yield")}, Args: as}}
+	}
+	lockKind := func(call *ast.CallExpr) string {
+		if call == nil || len(call.Args) != 0 {
+			return ""
+		}
+		sel, ok := call.Fun.(*ast.SelectorExpr)
+		if !ok {
+			return ""
+		}
+		switch sel.Sel.Name {
+		case "Lock", "RLock":
+			return "lock"
+		case "Unlock", "RUnlock":
+			return "unlock"
+		}
+		return ""
+	}
+	total := 0
+	var rewrite func(list []ast.Stmt, fname string) []ast.Stmt
+	rewrite = func(list []ast.Stmt, fname string) []ast.Stmt {
+		var out []ast.Stmt
+		for _, st := range list {
+			switch x := st.(type) {
+			case *ast.ExprStmt:
+				if call, ok := x.X.(*ast.CallExpr); ok {
+					switch lockKind(call) {
+					case "lock":
+						out = append(out, yield("auto.lock", fname), st, yield("auto.locked"))
+						total++
+						if len(names) == 0 || names[len(names)-1] != fname {
+							names = append(names, fname)
+						}
+						continue
+					case "unlock":
+						out = append(out, st, yield("auto.unlocked"))
+						total++
+						continue
+					}
+				}
+			case *ast.DeferStmt:
+				if lockKind(x.Call) == "unlock" {
+					x.Call = &ast.CallExpr{Fun: &ast.FuncLit{Type: &ast.FuncType{Params: &ast.FieldList{}}, Body: &ast.BlockStmt{List: []ast.Stmt{&ast.ExprStmt{X: x.Call}}}}} // the yield is added when this body is visited
+					total++
+				}
+			}
+			out = append(out, st)
+		}
+		return out
+	}
+	for _, d := range f.Decls {
+		fd, ok := d.(*ast.FuncDecl)
+		if !ok || fd.Body == nil {
+			continue
+		}
+		fname := pkg + "."
+		if fd.Recv != nil && len(fd.Recv.List) == 1 {
+			t := fd.Recv.List[0].Type
+			if st, ok := t.(*ast.StarExpr); ok {
+				t = st.X
+			}
+			if ix, ok := t.(*ast.IndexExpr); ok {
+				t = ix.X
+			}
+			if id, ok := t.(*ast.Ident); ok {
+				fname += id.Name + "."
+			}
+		}
+		fname += fd.Name.Name
+		ast.Inspect(fd.Body, func(n ast.Node) bool {
+			switch x := n.(type) {
+			case *ast.BlockStmt:
+				x.List = rewrite(x.List, fname)
+			case *ast.CaseClause:
+				x.Body = rewrite(x.Body, fname)
+			case *ast.CommClause:
+				x.Body = rewrite(x.Body, fname)
+			}
+			return true
+		})
+	}
+	if total == 0 {
+		return nil
+	}
+	has := false
+	for _, im := range f.Imports {
+		if im.Path.Value == strconv.Quote("github.com/prometheus/alertmanager/pkg/verifhook") {
+			has = true
+		}
+	}
+	if !has {
+		spec := &ast.ImportSpec{Path: &ast.BasicLit{Kind: token.STRING, Value: strconv.Quote("github.com/prometheus/alertmanager/pkg/verifhook")}}
+		for _, d := range f.Decls {
+			if gd, ok := d.(*ast.GenDecl); ok && gd.Tok == token.IMPORT {
+				gd.Specs = append(gd.Specs, spec)
+				if !gd.Lparen.IsValid() {
+					gd.Lparen = gd.Pos()
+					gd.Rparen = gd.End()
+				}
+				f.Imports = append(f.Imports, spec)
+				has = true
+				break
+			}
+		}
+		if !has {
+			f.Decls = append([]ast.Decl{&ast.GenDecl{Tok: token.IMPORT, Specs: []ast.Spec{spec}}}, f.Decls...)
+		}
+	}
+	return names
 }
 
 // runtimeOverlay makes the three places where the Go runtime draws an unseeded
